@@ -22,6 +22,11 @@ OBLIGATIONS (name — witness keys)
   progress = true: the stage ran with cli_progress=True and JPY_PARENT_PID=1 in the environment (terminal-like output for
   toasty.progress; the bar itself is written to /dev/null) -- the property does not depend on the progress display.
   fail.exc names the class of the injected exception (absent: the harness's own Exception subclass); see rt.c03.EXC_CLASSES.
+  fail.worker = k: no position fault; the k-th worker process the stage started (1-based) fails at the first item it handles
+  (an error "in any worker"); fault_fired tells whether that worker got an item at all.
+  fail.after_s = D ("slow failing last item"): the failing step works for D seconds before it raises, so the error appears long
+  after the producer has handed out its last item and started to wait for its workers.  returned_normally is a violation as
+  always; an expired watchdog (D + 90 s) is recorded as undecided_watchdog and decides nothing (never a violation).
 
 BOUNDS
   quick   : walk: generic depth 2 and one filtered depth-3 pyramid, fault at a tile just above the
@@ -34,11 +39,19 @@ BOUNDS
             EVERY stage, serially and with 2 or 3 workers.  ~35 of these cases once more with the progress bar on
             terminal-like output (every stage, serial and parallel); unreadable input image of multi_tan / multi_wcs with
             and without the bar.  Watchdog 20 s (multi_wcs 45 s).
+            Slow failing last item, D = 3 s: visit_leaves (4 leaves, 2 workers; last of 16 leaves, 3 workers and
+            serially), walk (apex, 2 workers), transform (last of 21 items, 2 workers), multi_tan (tile of the last of 4
+            inputs, 2 workers) -- run beside the other cases; notices a final wait for the workers that gives up after
+            less than ~2 s.
   thorough: fault at EVERY single item of: walk generic depth 2 (workers 1,2,3,5), filtered depth 3
             (1,2,3); visit generic depth 2 (1,2,3); transform depth 1 (1,2,3) and depth 2 (1,2);
             multi_tan 4 inputs (1,2,3); multi_wcs 3 inputs (1,2,3); every exception class x two fault
             positions x workers (1,2,3) in every stage; every single-fault case once more under the progress bar;
             each input of multi_tan unreadable.  Watchdog 40 s (60 s).
+            Slow failing last item, D = 20 s (multi_wcs 35 s: its idle workers poll with a 10 s time-out): visit_leaves
+            (4, 16, 64 leaves), walk (apex, last level-1 tile), transform (5 and 21 items), multi_tan (first / last
+            input), multi_wcs (last of 2 inputs); workers 1,2,3.  BOUND: notices a final wait that gives up after less
+            than ~18 s; a stage that abandons its workers later than that is not noticed by this scenario.
 
 TRUSTED: watchdog expiry stands for non-termination; multiprocessing start method is fork.
 """
@@ -64,6 +77,8 @@ def _fault_fired(case, res):
     if res is None:
         return None
     f = case["fail"]
+    if f.get("worker") is not None:
+        return any(e[0] == "F" for e in res["events"])
     if "pos" in f and f["pos"] is not None:
         typ = "S" if case["stage"] in ("walk", "visit") else "R"
         return any(e[0] == typ and [e[1], e[2], e[3]] == list(f["pos"]) for e in res["events"])
@@ -92,7 +107,11 @@ def evaluate(case, o, watchdog):
     if outcome == "returned_normally" and fired is False:
         # the failing item was never handed out: nothing to report for C19 (C03's business)
         return [], "fault_not_reached", fired
-    msg = {"returned_normally": "%s(parallel=%d) returned normally although processing of %s raised" % (s, case["parallel"], case["fail"]),
+    if outcome == "no_return_within_watchdog" and case["fail"].get("after_s"):
+        # slow failing item: the run is long by construction; an expired watchdog (loaded machine) decides nothing
+        return [], "undecided_watchdog", fired
+    slow = (" after working for %s s" % case["fail"]["after_s"]) if case["fail"].get("after_s") else ""
+    msg = {"returned_normally": "%s(parallel=%d) returned normally although processing of %s raised%s" % (s, case["parallel"], case["fail"], slow),
            "no_return_within_watchdog": "%s(parallel=%d) had not returned %d s after processing of %s raised" % (s, case["parallel"], watchdog, case["fail"])}[outcome]
     return [("rt/%s/error_reported" % s, witness_of(case, outcome, watchdog, fired), msg)], outcome, fired
 
@@ -304,6 +323,97 @@ def build_cases(rng, thorough):
     return long_cases, cases, bounds
 
 
+def build_slow_cases(thorough, first_id):
+    """Scenario "slow failing last item": the processing of an item at the tail of the schedule (the last one the
+    producer hands out, or any item when all fit into the queue) works for D seconds and then raises.  By then the
+    producer has long handed out everything and is waiting for its workers; the statement still allows one outcome only:
+    the call raises.  (A stage whose final wait gives up after T < D seconds returns normally and is reported.)
+    D = 3 s (quick) / 20 s (thorough; multi_wcs, whose idle workers need up to 10 s to notice the shutdown: 35 s)."""
+    D = 20 if thorough else 3
+    D_wcs = 35
+    cases = []
+
+    def slow(c, d=None):
+        c = dict(c)
+        c["fail"] = dict(c["fail"], after_s=d or D)
+        c["delay"] = None
+        cases.append(c)
+
+    four = [[10, 20, 100, 100], [10, 400, 100, 100], [300, 20, 100, 100], [300, 400, 100, 100]]
+
+    def mcase(w, p):
+        return {"stage": "multi_tan", "pieces": four, "mosaic": [420, 520], "seed": 5, "bottom_up": False, "parallel": w, "delay": None,
+                "schedule": "os", "sched": None, "fail": {"pos": list(p)}}
+
+    def tcase(depth, w, p):
+        return {"stage": "transform", "depth": depth, "present": [list(q) for q in Q.all_positions(depth)], "parallel": w, "delay": None,
+                "schedule": "os", "sched": None, "fail": {"pos": list(p)}}
+
+    def wcase(w, pcs, k):
+        return {"stage": "multi_wcs", "pieces": pcs, "seed": 3, "parallel": w, "delay": None, "schedule": "os", "sched": None, "fail": {"image": k}}
+
+    if thorough:
+        for w in (1, 2, 3):
+            slow(_shape_case("visit", "g", 1, [], None, w, (1, 1, 1)))       # 4 leaves: all in the queue at once
+            slow(_shape_case("visit", "g", 2, [], None, w, (2, 3, 3)))       # last of 16 leaves
+            slow(_shape_case("walk", "g", 2, [], None, w, (0, 0, 0)))        # the apex is the last tile of a walk
+            slow(_shape_case("walk", "g", 2, [], None, w, (1, 1, 1)))        # last level-1 tile
+            slow(tcase(1, w, (0, 0, 0)))                                     # 5 items, the last one
+            slow(tcase(2, w, (0, 0, 0)))                                     # 21 items, the last one
+            slow(mcase(w, (1, 1, 1)))                                        # tile of the last of 4 inputs
+            slow(mcase(w, (1, 0, 0)))                                        # tile of the first input (4 inputs <= queue capacity)
+        slow(_shape_case("visit", "t", 3, [], None, 2, (3, 7, 7)))           # last of 64 TOAST leaves (more than the queue holds)
+        pcs = [[0, 0, 40, 50], [1, 1, 50, 40]]
+        for w in (1, 2, 3):
+            slow(wcase(w, pcs, len(pcs) - 1), D_wcs)
+        bound = ("slow failing last item: the item works for %d s (multi_wcs: %d s), then raises -- visit_leaves (4 leaves: last; 16 leaves: "
+                 "last; 64 TOAST leaves: last), walk (apex; last level-1 tile), transform (5 and 21 items: last), multi_tan (4 inputs: "
+                 "tile of the first / last input), multi_wcs (2 inputs: last); workers 1,2,3; %d cases.  Exposes a parallel stage whose "
+                 "final wait for its workers gives up after less than ~%d s (bound of this scenario; a longer give-up time is not "
+                 "noticed); watchdog item time + 90 s, its expiry decides nothing" % (D, D_wcs, len(cases), D - 2))
+    else:
+        slow(_shape_case("visit", "g", 1, [], None, 2, (1, 1, 1)))
+        slow(_shape_case("visit", "g", 2, [], None, 3, (2, 3, 3)))
+        slow(_shape_case("walk", "g", 2, [], None, 2, (0, 0, 0)))
+        slow(tcase(2, 2, (0, 0, 0)))
+        slow(mcase(2, (1, 1, 1)))
+        slow(_shape_case("visit", "g", 2, [], None, 1, (2, 3, 3)))
+        bound = ("slow failing last item: the item works for %d s, then raises -- visit_leaves (4 leaves, 2 workers; last of 16 leaves, 3 "
+                 "workers and serially), walk (apex, 2 workers), transform (last of 21 items, 2 workers), multi_tan (tile of the last of 4 "
+                 "inputs, 2 workers); %d cases run beside the others.  Exposes a final wait for the workers that gives up after less than "
+                 "~%d s (thorough: 20 s items, multi_wcs too); watchdog item time + 90 s, its expiry decides nothing" % (D, len(cases), D - 1))
+    # "in any worker": the k-th worker process the stage started fails, after 3 s of work, at the first item it happens to
+    # handle; all other items are fine.  (Which items that worker gets is up to the OS; a run in which it got none counts
+    # as fault_not_reached.)  The stage may only raise.
+    n0 = len(cases)
+
+    def wslow(c, k):
+        c = dict(c)
+        c["fail"] = {"worker": k, "after_s": 3}
+        c["delay"] = {"seed": k, "base_ms": 5.0, "slow": []} if c["stage"] != "multi_tan" else None
+        cases.append(c)
+
+    eight = [[10, 20, 60, 60], [10, 400, 60, 60], [300, 20, 60, 60], [300, 400, 60, 60], [100, 100, 60, 60], [100, 300, 60, 60], [200, 100, 60, 60], [200, 300, 60, 60]]
+    for w in ((2, 3) if thorough else (2,)):
+        for k in (range(1, w + 1) if thorough else (1, w)):
+            wslow(_shape_case("visit", "t", 3, [], None, w, (9, 9, 9)), k)         # 64 leaves; (9,9,9) is no tile: no position fault
+            if thorough or k == w:
+                wslow(tcase(2, w, (9, 9, 9)), k)
+                wslow(dict(mcase(w, (9, 9, 9)), pieces=eight), k)
+    if thorough:
+        for w in (2, 3):
+            wslow(_shape_case("walk", "g", 2, [], None, w, (9, 9, 9)), w)
+    if not thorough:
+        wslow(_shape_case("visit", "g", 2, [], None, 3, (9, 9, 9)), 3)
+    bound += ("; failing worker: the k-th started worker fails 3 s into the first item it handles -- visit_leaves (64 TOAST leaves), "
+              "transform (21 items), multi_tan (8 inputs)%s; %s; %d cases" % (
+                  ", walk (last worker)" if thorough else ", visit_leaves (16 leaves, 3 workers, last worker)",
+                  "every worker of 2 and of 3" if thorough else "2 workers: first and last (transform, multi_tan: last)", len(cases) - n0))
+    for i, c in enumerate(cases):
+        c["id"] = first_id + i
+    return cases, bound, (D_wcs if thorough else D) + 90
+
+
 def run(ctx):
     thorough = ctx.thorough
     wd, wd_long = (40, 60) if thorough else (20, 45)
@@ -335,11 +445,24 @@ def run(ctx):
     def long_run():
         out["long"] = B.dispatch("rt.c03", "stage_case", None, os.path.join(ctx.workdir, "long"), wd_long, max_workers=32, max_timeouts=10 ** 6,
                                  est_case_secs=10.0, batches=[[dict(c)] for c in long_cases])
+    slow_cases, slow_bound, wd_slow = build_slow_cases(thorough, len(long_cases) + len(cases))
+    bounds.append(slow_bound)
+
+    def slow_run():
+        out["slow"] = B.dispatch("rt.c03", "stage_case", None, os.path.join(ctx.workdir, "slow"), wd_slow, max_workers=32, max_timeouts=10 ** 6,
+                                 est_case_secs=10.0, batches=[[dict(c)] for c in slow_cases])
     t = threading.Thread(target=long_run)
     t.start()
+    t2 = threading.Thread(target=slow_run)
+    t2.start()
     res = B.dispatch("rt.c03", "stage_case", None, os.path.join(ctx.workdir, "main"), wd, max_workers=32, max_timeouts=10 ** 6,
                      est_case_secs=5.0, batches=batches)
     t.join()
+    t2.join()
+    for c in slow_cases:
+        o = out["slow"].get(c["id"])
+        if o and o["status"] != "skipped":
+            handle(c, o, wd_slow)
     for c in cases:
         handle(c, res.get(c["id"], {"status": "skipped"}), wd) if c["id"] in res and res[c["id"]]["status"] != "skipped" else None
     for c in long_cases:
